@@ -30,7 +30,8 @@ func TestC12ClientRaces(t *testing.T) {
 	defer func() { otelOn = false }()
 	rapid.Check(t, func(rt *rapid.T) {
 		otelOn = rapid.Bool().Draw(rt, "otel")
-		scen := rapid.SampledFrom([]string{"script", "script", "stream-insert-telemetry", "stream-insert-telemetry", "foreign-close", "cancel", "ping-after"}).Draw(rt, "scenario")
+		scen := rapid.SampledFrom([]string{"script", "script", "stream-insert-telemetry", "stream-insert-telemetry", "foreign-close", "cancel", "ping-after",
+			"surplus-headers", "cancel+foreign-close"}).Draw(rt, "scenario")
 		rapid.SyncTest(rt, func(rt *rapid.T) {
 			switch scen {
 			case "script":
@@ -63,6 +64,12 @@ func raceInsert(rt *rapid.T, scen string) {
 	m := comp.Method
 	e.srv.Steps = append(e.srv.Steps,
 		itemStep(headerItem(cols), simnet.AfterQuery(1), m, nil))
+	if scen == "surplus-headers" {
+		// redundant column-info blocks right behind the first one, while the sender is still using it
+		for i := 0; i < 3; i++ {
+			e.srv.Steps = append(e.srv.Steps, itemStep(headerItem(cols), nil, m, nil))
+		}
+	}
 	for i := 1; i <= rounds; i++ {
 		e.srv.Steps = append(e.srv.Steps,
 			itemStep(Item{Kind: "progress", Progress: ref.Progress{Rows: uint64(i), Bytes: 10}}, simnet.AfterDataBlocks(i), 0, nil),
@@ -116,6 +123,11 @@ func raceInsert(rt *rapid.T, scen string) {
 	case "cancel":
 		wg.Add(1)
 		go func() { defer wg.Done(); time.Sleep(foreign); cancel() }()
+	case "cancel+foreign-close":
+		// cancellation (the library closes the client itself) and a foreign Close at the same instant
+		wg.Add(2)
+		go func() { defer wg.Done(); time.Sleep(foreign); cancel() }()
+		go func() { defer wg.Done(); time.Sleep(foreign); _ = client.Close(); _ = client.IsClosed() }()
 	}
 	done := make(chan struct{})
 	go func() { defer close(done); _ = client.Do(ctx, q) }()
